@@ -2,7 +2,13 @@
 
 package composite
 
-import "sort"
+import (
+	"sort"
+
+	"k8s.io/apimachinery/pkg/runtime"
+
+	xpv1 "github.com/crossplane/crossplane-runtime/apis/common/v1"
+)
 
 // VerifC10ConversionKeys returns the key set (from, to, format) of the unexported
 // `conversions` table of the convert transform, sorted, for the C10 table dump.
@@ -20,4 +26,11 @@ func VerifC10ConversionKeys() [][3]string {
 		return false
 	})
 	return out
+}
+
+// VerifC10MergeReplace exposes mergeReplace (merge.go), the body of the apply option
+// withMergeOptions, so that the C10 harness can step a rendered object through a template's
+// apply options while collecting the mergo operands of each step.
+func VerifC10MergeReplace(path string, current, desired runtime.Object, mo *xpv1.MergeOptions) error {
+	return mergeReplace(path, current, desired, mo)
 }
